@@ -1,0 +1,74 @@
+// Verification hooks for zkp.rs (only with --cfg strand_verif): the challenge
+// oracles and the exact bytes that are hashed.
+use super::*;
+
+/// kind: 0 = plain label context (schnorr_prove / cp_prove),
+///       1 = ciphertext-bound context (mhr + label)
+fn context<C: Ctx>(
+    mhr: Option<&C::E>,
+    label: &[u8],
+) -> Result<ChallengeInput, StrandError> {
+    match mhr {
+        None => Ok(ChallengeInput::from_bytes(vec![("label", label.to_vec())])),
+        Some(mhr) => {
+            let mut context = ChallengeInput::from(&[("mhr", &mhr)])?;
+            context.add("label", &label.to_vec())?;
+            Ok(context)
+        }
+    }
+}
+
+pub fn schnorr_challenge_bytes<C: Ctx>(
+    g: &C::E,
+    public: &C::E,
+    commitment: &C::E,
+    mhr: Option<&C::E>,
+    label: &[u8],
+) -> Result<Vec<u8>, StrandError> {
+    let mut values = ChallengeInput::from(&[
+        ("g", g),
+        ("public", public),
+        ("commitment", commitment),
+    ])?;
+    values.add("context", &context::<C>(mhr, label)?)?;
+    values.get_bytes()
+}
+
+pub fn schnorr_challenge<C: Ctx>(
+    zkp: &Zkp<C>,
+    g: &C::E,
+    public: &C::E,
+    commitment: &C::E,
+    mhr: Option<&C::E>,
+    label: &[u8],
+) -> Result<C::X, StrandError> {
+    zkp.schnorr_proof_challenge(
+        g,
+        public,
+        commitment,
+        context::<C>(mhr, label)?,
+    )
+}
+
+#[allow(clippy::too_many_arguments)]
+pub fn cp_challenge<C: Ctx>(
+    zkp: &Zkp<C>,
+    g1: &C::E,
+    g2: &C::E,
+    public1: &C::E,
+    public2: &C::E,
+    commitment1: &C::E,
+    commitment2: &C::E,
+    mhr: Option<&C::E>,
+    label: &[u8],
+) -> Result<C::X, StrandError> {
+    zkp.cp_proof_challenge(
+        g1,
+        g2,
+        public1,
+        public2,
+        commitment1,
+        commitment2,
+        context::<C>(mhr, label)?,
+    )
+}
